@@ -1368,8 +1368,46 @@ def _x_math_sqrt(it, args, kw, node, fi):
     return nf.sqrt_of(Rat.lift(args[0]))
 
 
+def _const_float(x):
+    if is_num(x):
+        return float(nf.frac(x))
+    if isinstance(x, Rat):
+        c = x.const_value()
+        if c is not None:
+            return float(c)
+    return None
+
+
 def _x_math_log10(it, args, kw, node, fi):
+    import math
+    c = _const_float(args[0])
+    if c is not None and c > 0:
+        return nf.frac(math.log10(c))
     return nf.fn("log10", args[0])
+
+
+def _x_math_log2(it, args, kw, node, fi):
+    import math
+    c = _const_float(args[0])
+    if c is not None and c > 0:
+        return nf.frac(math.log2(c))
+    return nf.fn("log2", args[0])
+
+
+def _x_math_ceil(it, args, kw, node, fi):
+    import math
+    c = _const_float(args[0])
+    if c is not None:
+        return Fraction(math.ceil(nf.frac(args[0]) if is_num(args[0]) else c))
+    return nf.fn("ceil", args[0])
+
+
+def _x_math_floor(it, args, kw, node, fi):
+    import math
+    c = _const_float(args[0])
+    if c is not None:
+        return Fraction(math.floor(nf.frac(args[0]) if is_num(args[0]) else c))
+    return nf.fn("floor", args[0])
 
 
 def _x_warn(it, args, kw, node, fi):
@@ -1379,6 +1417,9 @@ def _x_warn(it, args, kw, node, fi):
 _EXTERNAL_INTRINSICS = {
     "math.sqrt": _x_math_sqrt,
     "math.log10": _x_math_log10,
+    "math.log2": _x_math_log2,
+    "math.ceil": _x_math_ceil,
+    "math.floor": _x_math_floor,
     "warnings.warn": _x_warn,
 }
 
